@@ -791,6 +791,11 @@ def Expr.nfInv : Expr → Prop
     body.nfInv ∧ bcc = [] ∧ k ≤ 1 ∧ (k = 0 → body.before = []) ∧ n ≠ [';'] ∧ Alt b ∧ Alt a
   | .un op e _ bt b a => e.nfInv ∧ e.before = [] ∧ bt = [] ∧ op ≠ [';'] ∧ Alt b ∧ Alt a
   | .bin op l r _ _ b a => l.nfInv ∧ l.before = [] ∧ r.nfInv ∧ r.before = [] ∧ op ≠ [';'] ∧ Alt b ∧ Alt a
+  -- `if`: condition and branches without leading trivia, no comment in the five gaps
+  | .ite c t e cg aic aig btc _ atc _ bec _ aec _ b a =>
+    c.nfInv ∧ c.before = [] ∧ t.nfInv ∧ t.before = [] ∧ e.nfInv ∧ e.before = [] ∧ cg = aig ∧ aic = [] ∧ btc = [] ∧
+      atc = [] ∧ bec = [] ∧ aec = [] ∧ Alt b ∧ Alt a
+  | .has e attrs _ _ bq aq b a => e.nfInv ∧ e.before = [] ∧ bq = [] ∧ aq = [] ∧ (∀ x ∈ attrs, x ≠ [';']) ∧ Alt b ∧ Alt a
 def allNfInv : List Expr → Prop
   | [] => True
   | e :: rest => e.nfInv ∧ allNfInv rest
@@ -817,6 +822,8 @@ def Expr.inlineClean : Expr → Prop
   | .un _ e _ _ _ _ => e.inlineClean
   -- at most one blank line in front of / after a binary operator (`cex_blank_lines_around_operator`)
   | .bin _ l r ogl rgl _ _ => ogl ≤ 2 ∧ rgl ≤ 2 ∧ l.inlineClean ∧ r.inlineClean
+  | .ite c t e _ _ _ _ _ _ _ _ _ _ _ _ _ => c.inlineClean ∧ t.inlineClean ∧ e.inlineClean
+  | .has e _ _ _ _ _ _ _ => e.inlineClean
 def allInlineClean : List Expr → Prop
   | [] => True
   | e :: rest => e.inlineClean ∧ allInlineClean rest
@@ -1129,6 +1136,110 @@ theorem effAfter_notBinding {e : Expr} (h : e.notBinding = true) : e.effAfter fa
 
 theorem effAfter_true_notBinding {e : Expr} (h : e.notBinding = true) : e.effAfter true = [] := by
   cases e <;> first | rfl | cases h
+
+/-! ### `if` / `?`: separators without comments -/
+
+/-- one space, or a line break (and a blank line) followed by the indentation read from the gap -/
+def sepText (g : Text) : Text :=
+  if (Layout.fromGap g).onNewline then
+    '\n' :: (if (Layout.fromGap g).blankLine then ['\n'] else []) ++ spaces ((Layout.fromGap g).indent.getD 0)
+  else [' ']
+
+/-- one space, or a line break (and a blank line) -/
+def brkText (g : Text) : Text :=
+  if (Layout.fromGap g).onNewline then '\n' :: (if (Layout.fromGap g).blankLine then ['\n'] else []) else [' ']
+
+theorem sepText_sepOk (g : Text) (x : Lex) (hx : x ≠ .tok [';']) : sepOk (sepText g) x = true := by
+  unfold sepText
+  cases (Layout.fromGap g).onNewline with
+  | false => simpa using sepOk_space x hx
+  | true =>
+    simp only [if_true]
+    cases (Layout.fromGap g).blankLine
+    · simpa using sepOk_nl _ x hx
+    · simpa using sepOk_nlnl _ x hx
+
+theorem iteCondPrefix_nil (g : Text) (ci : Nat) (s : Text) : iteCondPrefix [] g ci s = brkText g := by
+  unfold iteCondPrefix iteLayout brkText formatInterstitialTriviaWithSeparator
+  simp only [formatInterstitialTrivia, formatInterstitialGo, separatorFromLayoutWithComments, List.isEmpty_nil, Bool.not_true,
+    Bool.false_eq_true, if_false, Bool.false_and, List.nil_append, endsWithNL_nil', startsWithNL, List.head?_nil]
+  cases (Layout.fromGap g).onNewline <;> simp
+
+theorem iteKwPrefix_nil (g : Text) (i : Nat) (s : Text) : iteKwPrefix [] g i s = sepText g := by
+  unfold iteKwPrefix iteLayout sepText formatInterstitialTriviaWithSeparator
+  simp only [formatInterstitialTrivia, formatInterstitialGo, separatorFromLayoutWithComments, List.isEmpty_nil, Bool.not_true,
+    Bool.false_eq_true, if_false, Bool.false_and, List.nil_append, endsWithNL_nil', startsWithNL, List.head?_nil]
+  cases (Layout.fromGap g).onNewline <;> simp
+
+theorem hasSep_nil (g : Text) (i : Nat) :
+    (formatInterstitialTriviaWithSeparator [] (unLayout [] g) i (dropBlankIfItems := false)).1 ++
+      (formatInterstitialTriviaWithSeparator [] (unLayout [] g) i (dropBlankIfItems := false)).2 = sepText g := by
+  unfold unLayout sepText formatInterstitialTriviaWithSeparator
+  simp only [formatInterstitialTrivia, formatInterstitialGo, separatorFromLayoutWithComments, List.isEmpty_nil, Bool.not_true,
+    Bool.false_eq_true, if_false, Bool.false_and, List.nil_append, endsWithNL_nil', hasLayoutOrComment, List.any_nil]
+  cases (Layout.fromGap g).onNewline <;> simp
+
+theorem branchSep_eq (g : Text) : branchSep (Layout.fromGap g) = brkText g := by
+  unfold branchSep brkText
+  cases (Layout.fromGap g).onNewline <;> cases (Layout.fromGap g).blankLine <;> rfl
+
+theorem iteLayout_nil (g : Text) : iteLayout g (branchHasComments [] []) = Layout.fromGap g := by
+  simp [iteLayout, branchHasComments]
+
+theorem summ_ws_block (w : Text) {R : List FP} {W : Text} {f : Lex} {t : Text} (h : summ R = .lexy W f true t) :
+    summ (FP.ws w :: R) = .lexy (w ++ W) f true t := by
+  rw [summ_cons, h]; simp [summ1, Summ.comb]
+
+/-- a separator of `brkText`, then the expression inline or on its own line -/
+theorem branch_summ {e : Expr} (ih : ∀ (j : Nat) (bb : Bool), ExprS e false j bb (summ (e.rebuildAP false j bb)))
+    (heb : e.before = []) (hcl : closedT (e.effAfter false)) (g : Text) (j i : Nat) :
+    ∃ W f, sepOk W f = true ∧
+      summ (FP.ws (brkText g) :: (if (Layout.fromGap g).onNewline = true then e.rebuildAP false j false
+        else e.rebuildAP false i true)) = .lexy W f true [] := by
+  unfold brkText
+  cases (Layout.fromGap g).onNewline with
+  | false =>
+    obtain ⟨l, f, t, hs, hf, _, _, c1, _, c3, _⟩ := ih i true
+    refine ⟨[' '] ++ l, f, ?_, ?_⟩
+    · rw [c1 heb]; simpa using sepOk_space f hf
+    · simp only [Bool.false_eq_true, if_false]
+      rw [summ_ws_block _ hs, c3 hcl]
+  | true =>
+    obtain ⟨l, f, t, hs, hf, _, _, c1, _, c3, _⟩ := ih j false
+    refine ⟨('\n' :: (if (Layout.fromGap g).blankLine = true then ['\n'] else [])) ++ l, f, ?_, ?_⟩
+    · rw [c1 heb]
+      simp only [Bool.false_eq_true, if_false]
+      cases (Layout.fromGap g).blankLine
+      · simpa using sepOk_nl j f hf
+      · simpa using sepOk_nlnl j f hf
+    · simp only [if_true]
+      rw [summ_ws_block _ hs, c3 hcl]
+
+/-- the pieces of an `if` between its leading and trailing trivia -/
+theorem ite_core_summ {C T E : List FP} {W1 W2 W3 W4 W5 : Text}
+    (hC : ∃ W f, sepOk W f = true ∧ summ (FP.ws W1 :: C) = .lexy W f true [])
+    (h2 : sepOk W2 (.tok kwThen) = true)
+    (hT : ∃ W f, sepOk W f = true ∧ summ (FP.ws W3 :: T) = .lexy W f true [])
+    (h4 : sepOk W4 (.tok kwElse) = true)
+    (hE : ∃ W f, sepOk W f = true ∧ summ (FP.ws W5 :: E) = .lexy W f true []) :
+    summ ([FP.tok kwIf, FP.ws W1] ++ C ++ [FP.ws W2, FP.tok kwThen, FP.ws W3] ++ T ++ [FP.ws W4, FP.tok kwElse, FP.ws W5] ++ E) =
+      .lexy [] (.tok kwIf) true [] := by
+  obtain ⟨Wc, fc, hsc, hC⟩ := hC
+  obtain ⟨Wt, ft, hst, hT⟩ := hT
+  obtain ⟨We, fe, hse, hE⟩ := hE
+  rw [show [FP.tok kwIf, FP.ws W1] ++ C ++ [FP.ws W2, FP.tok kwThen, FP.ws W3] ++ T ++ [FP.ws W4, FP.tok kwElse, FP.ws W5] ++ E =
+    [FP.tok kwIf] ++ ((FP.ws W1 :: C) ++ ([FP.ws W2, FP.tok kwThen] ++ ((FP.ws W3 :: T) ++ ([FP.ws W4, FP.tok kwElse] ++
+      (FP.ws W5 :: E))))) from by simp]
+  simp only [summ_append, hC, hT, hE, summ_cons, summ_nil, summ1]
+  simp [Summ.comb, hsc, hst, hse, h2, h4]
+
+/-- the first token of an attrpath is one of its segments -/
+theorem attrP_summ_head : ∀ (attrs : List Text), attrs ≠ [] → ∃ a ∈ attrs, summ (attrP attrs) = .lexy [] (.tok a) true []
+  | [], h => absurd rfl h
+  | [a], _ => ⟨a, List.mem_cons_self .., summ_tok a⟩
+  | a :: b :: rest, _ => by
+    obtain ⟨f, hf⟩ := attrP_summ (b :: rest) (by simp)
+    exact ⟨a, List.mem_cons_self .., by simp only [attrP]; exact summ_tok_cons a (summ_tok_cons _ hf)⟩
 
 mutual
 theorem rebuildAP_summ : (e : Expr) → e.ok → e.mlSafe → e.nfInv → e.inlineClean → ∀ (na : Bool) (i : Nat) (b : Bool),
@@ -1592,6 +1703,48 @@ theorem rebuildAP_summ : (e : Expr) → e.ok → e.mlSafe → e.nfInv → e.inli
       · simp only [if_true]
         rw [show (['\n', '\n'] ++ spaces ((Layout.fromGap g).indent.getD i)) = '\n' :: '\n' :: spaces ((Layout.fromGap g).indent.getD i) from rfl,
           sepOk_nlnl _ f hf]
+  | .ite cond thn els cg aic aig btc btg atc tg bec beg aec eg before after, hok, hml, hinv, hclean, na, i, b => by
+    obtain ⟨hc, ht, he, _, _, _, _, _, hb, ha⟩ := hok
+    obtain ⟨hcm, htm, hem, hcnb, htnb, henb, hca, hta, hea⟩ := hml
+    obtain ⟨hci, hcb, hti, htb, hei, heb, hcg, h1, h2, h3, h4, h5, habf, haaf⟩ := hinv
+    subst hcg; subst h1; subst h2; subst h3; subst h4; subst h5
+    have hT := trailP_summ (ite_nil_ok na ha) (alt_ite_nil na haaf) i
+    have ihc := rebuildAP_summ cond hc hcm hci hclean.1 false
+    have iht := rebuildAP_summ thn ht htm hti hclean.2.1 false
+    have ihe := rebuildAP_summ els he hem hei hclean.2.2 false
+    have hclc : closedT (cond.effAfter false) := by rw [effAfter_notBinding hcnb, hca]; exact Or.inl rfl
+    have hclt : closedT (thn.effAfter false) := by rw [effAfter_notBinding htnb, hta]; exact Or.inl rfl
+    have hcle : closedT (els.effAfter false) := by rw [effAfter_notBinding henb, hea]; exact Or.inl rfl
+    simp only [Expr.rebuildAP, addTriviaP, htb, heb, iteLayout_nil, branchSep_eq, iteCondPrefix_nil, iteKwPrefix_nil,
+      formatInlineCommentSuffix, List.foldl_nil, List.nil_append]
+    rw [fmtP_lines hb.1, List.append_assoc (linesP i before)]
+    refine exprS_of_wrap (fc := .tok kwIf) hb habf ?_ (tok_ne_semi (by decide)) hT.1 hT.2 (fun h => h) (fun h => h)
+    rw [summ_append, indentP_summ]
+    refine (congrArg (Summ.comb _) (ite_core_summ ?_ ?_ ?_ ?_ ?_)).trans ?_
+    · exact branch_summ ihc hcb hclc cg _ _
+    · exact sepText_sepOk _ _ (tok_ne_semi (by decide))
+    · exact branch_summ iht htb hclt tg _ _
+    · exact sepText_sepOk _ _ (tok_ne_semi (by decide))
+    · exact branch_summ ihe heb hcle eg _ _
+    · simp [Summ.comb]
+  | .has expr attrs lg rg bq aq before after, hok, hml, hinv, hclean, na, i, b => by
+    obtain ⟨he, hne, _, _, _, hb, ha⟩ := hok
+    obtain ⟨hem, henb, hea⟩ := hml
+    obtain ⟨hei, heb, hbq0, haq0, hsemi, habf, haaf⟩ := hinv
+    subst hbq0; subst haq0
+    have hT := trailP_summ (ite_nil_ok na ha) (alt_ite_nil na haaf) i
+    obtain ⟨l, f, t, hs, hf, _, _, c1, _, c3, _⟩ := rebuildAP_summ expr he hem hei hclean false i true
+    have hcl : closedT (expr.effAfter false) := by rw [effAfter_notBinding henb, hea]; exact Or.inl rfl
+    have hes : summ (expr.rebuildAP false i true) = .lexy [] f true [] := by rw [hs, c3 hcl, c1 heb]; rfl
+    obtain ⟨a0, ha0, hat⟩ := attrP_summ_head attrs hne
+    simp only [Expr.rebuildAP, addTriviaP, hasSep_nil]
+    rw [fmtP_lines hb.1, List.append_assoc (linesP i before)]
+    refine exprS_of_wrap hb habf ?_ hf hT.1 hT.2 (fun h => h) (fun h => h)
+    rw [show indentP i b ++ (expr.rebuildAP false i true ++ [FP.ws (sepText lg), FP.tok ['?'], FP.ws (sepText rg)] ++ attrP attrs) =
+        indentP i b ++ (expr.rebuildAP false i true ++ ([FP.ws (sepText lg), FP.tok ['?'], FP.ws (sepText rg)] ++ attrP attrs))
+      from by simp only [List.append_assoc]]
+    simp only [summ_append, indentP_summ, hes, hat, summ_cons, summ_nil, summ1]
+    simp [Summ.comb, sepText_sepOk lg _ (tok_ne_semi (t := ['?']) (by decide)), sepText_sepOk rg _ (tok_ne_semi (hsemi a0 ha0))]
 theorem joinNl_summ : (es : List Expr) → allOk es → allMlSafe es → allNfInv es → allInlineClean es → nonLastClosed es → es ≠ [] → ∀ (i : Nat),
     ∃ l f t, summ (joinP [.ws ['\n']] (rebuildAllP es i false)) = .lexy l f true t ∧ f ≠ semi ∧ VLead l ∧ TrailT t
   | [], _, _, _, _, _, h, _ => absurd rfl h
@@ -1636,6 +1789,8 @@ theorem previewP_summ : (e : Expr) → e.ok → e.mlSafe → e.nfInv → e.inlin
   | .lam .., _, _, _, _, i, p, h => by simp [Expr.previewP] at h
   | .un .., _, _, _, _, i, p, h => by simp [Expr.previewP] at h
   | .bin .., _, _, _, _, i, p, h => by simp [Expr.previewP] at h
+  | .ite .., _, _, _, _, i, p, h => by simp [Expr.previewP] at h
+  | .has .., _, _, _, _, i, p, h => by simp [Expr.previewP] at h
   | .list value ml inner before after, hok, hml, hinv, hclean, i, p, h => by
     have hvm := hml.1
     obtain ⟨hv, hin, hb, ha⟩ := hok
